@@ -1,59 +1,84 @@
 /* C17 - command line: no crash on any option vector; exit 0 iff the requested operation succeeded; otherwise diagnostic + non-zero.
-   Real code: main (renamed), get_v_opt, parseOpts, Settings, check_ctype/htype, getArgsKey, printkey, base64.  Environment:
-   getopt_long delivers a SYMBOLIC sequence of up to NOPT options drawn from a menu of (option, argument) pairs that covers the
-   value classes of C17 (valid / missing / unopenable / over-long paths, well- and ill-formed keys, in- and out-of-range modes,
-   unknown option); fopen/sprintf/strtol/filesystem are modelled; the kernel (runcrypt) is a stub that checks its preconditions and
-   returns a symbolic result. */
+   Real code: main (renamed), get_v_opt, parseOpts, Settings, check_ctype/htype, getArgsKey, printkey, base64, std::string helpers.
+   Decomposition (the option loop of get_v_opt calls parseOpts once per option, so an induction over the loop covers EVERY option vector):
+     H_STEP   parseOpts(c, res) from an ARBITRARY state satisfying Inv, arbitrary option code c, arbitrary argument text of a given
+              length, arbitrary fopen outcome / file size / number: memory safe, accepted exactly when the rule says so, a rejection
+              prints a diagnostic, an accepted option changes exactly its own setting, Inv is preserved.
+     H_TAIL   get_v_opt with parseOpts replaced by "havoc to any Inv state, return any verdict" (first call checks that the initial
+              state satisfies Inv): NULL + diagnostic unless every option was accepted and the mode has what it needs; else Q holds.
+     H_MAIN   main with get_v_opt replaced by "NULL, or any state satisfying Q": exit status 0 iff version/help or the one requested
+              operation ran on exactly the parsed files/key/modes and reported success.
+     H_WHOLE  the undivided real main() on a concrete option sequence from a menu (integration: ties the three pieces together),
+              and the default output name "<input>.wenc" for a symbolic input path.
+   Inv: mode in {u,e,d,v,V,h}, ctype in {-1,0..4}, htype in {-1,0..2}, fp/out/key each NULL or valid (key: 16 bytes).
+   Q:   mode in {e,d,v,V,h}; e: fp,out,key valid, ctype in 0..4, htype in 0..2; d: fp,out,key valid; v: fp,key valid.
+   The same file is compiled natively against the real build (real getopt_long, fopen, kernel) to replay counterexamples. */
 #include "vharness.h"
 #include "env_file.h"
+#include "ref_b64.h"
 #include <stdarg.h>
-#ifndef NOPT
-#define NOPT 4
-#endif
-u32 vf_main(u32 argc, u8 *argv);
-u8 *vf_fout(void); u32 vf_fout_size(void); u32 vf_rc_resultprint_off(void);
-void global_ctors(void);
-extern u8 *X_G_optarg; extern u32 X_G_optind;
-struct in_t { u8 opts[NOPT]; u8 nopts; u8 opres; u64 fsize; } IN;
+#include <string.h>
+#include <stdint.h>
 
-static char LONGPATH[131];
-static const char KEY_OK[] = "QUJDREVGR0hJSktMTU5PUA==", KEY_BAD1[] = "QUJDREVGR0hJSktMTU5PUFE=", KEY_BAD2[] = "short", KEY_BAD3[] = "QUJDREVGR0hJSktMTU5PU!==";
-struct mopt { int c; const char *arg; };
-#define NMENU 21
-static struct mopt MENU[NMENU] = {
-  {'e', 0}, {'d', 0}, {'v', 0},
-  {'i', "in.bin"}, {'i', "nofile"}, {'i', LONGPATH},
-  {'o', "out.bin"}, {'o', "/nodir/out"},
-  {'k', KEY_OK}, {'k', KEY_BAD1}, {'k', KEY_BAD2}, {'k', KEY_BAD3},
-  {1, "2"}, {1, "7"}, {2, "1"}, {2, "9"},
-  {'n', 0}, {'V', 0}, {'h', 0}, {'?', 0}, {1, "-3"},
-};
-static u32 g_pos, diag, exit_called;
-/* ---- environment */
-u32 X_getopt_long(u32 argc, u8 *argv, u8 *so, u8 *lo, u8 *idx)
+u32 vf_main(u32 argc, u8 *argv);
+u8 *vf_get_v_opt(u32 argc, u8 *argv);
+u32 vf_parseopts(u32 c, u8 *res);
+u8 *vf_pak_new(void);
+void vf_pak_set(u8 *v, u8 *fp, u8 *out, u8 *key, u64 size, u32 mode, u32 ctype, u32 htype, u32 noecho);
+u8 *vf_pak_fp(u8 *v); u8 *vf_pak_out(u8 *v); u8 *vf_pak_key(u8 *v); u64 vf_pak_size(u8 *v);
+u32 vf_pak_mode(u8 *v); u32 vf_pak_ctype(u8 *v); u32 vf_pak_htype(u8 *v); u32 vf_pak_noecho(u8 *v);
+u32 vf_rc_resultprint_off(void); u32 vf_rc_sizeof(void);
+void global_ctors(void);
+
+static const char KEY_OK[] = "QUJDREVGR0hJSktMTU5PUA==";
+static u32 diag;                                     /* diagnostics printed (model: calls of strlog / exit path; native: bytes on stdout) */
+
+static int inv_ok(int mode, int ct, int ht)
 {
-  if (g_pos >= IN.nopts || g_pos >= NOPT) return 0xffffffffu;
-  u8 k = IN.opts[g_pos++];
-  X_G_optarg = (u8 *)MENU[k].arg;
-  X_G_optind++;
-  return (u32)MENU[k].c;
+  return (mode == 'u' || mode == 'e' || mode == 'd' || mode == 'v' || mode == 'V' || mode == 'h') && ct >= -1 && ct <= 4 && ht >= -1 && ht <= 2;
 }
-static u8 *IN_FILE, *OUT_FILE; static u32 opened_in, opened_out;
+static int key_text_valid(const u8 *s, u32 len)      /* C16: 22 alphabet symbols followed by "==" */
+{
+  if (len != 24) return 0;
+  for (int i = 0; i < 22; i++) if (ref_b64_val(s[i]) < 0) return 0;
+  return s[22] == '=' && s[23] == '=';
+}
+static void key_text_decode(const u8 *s, u8 *out)
+{
+  u8 tmp[18]; int o = 0;
+  for (int i = 0; i < 24; i += 4) {
+    u32 v = 0;
+    for (int j = 0; j < 4; j++) { int d = ref_b64_val(s[i + j]); v = (v << 6) | (u32)(d < 0 ? 0 : d); }
+    tmp[o++] = (u8)(v >> 16); tmp[o++] = (u8)(v >> 8); tmp[o++] = (u8)v;
+  }
+  memcpy(out, tmp, 16);
+}
+
+#if MODEL
+/* =================================================== environment of the generated C */
+extern u8 *X_G_optarg; extern u32 X_G_optind;
+#define SET_OPTARG(p) (X_G_optarg = (u8 *)(p))
+static u8 *F_IN, *F_OUT;                             /* what fopen hands out */
+static u32 fopen_calls, fopen_r, fopen_w; static u8 *fopen_name; static u8 fopen_wname[260];
+static int fopen_outcome(u8 *name, int wr);
 u8 *X_fopen(u8 *name, u8 *mode)
 {
-  if (name == (u8 *)MENU[4].arg || name == (u8 *)MENU[7].arg) return 0;                 /* does not exist / directory missing */
-  if (mode[0] == 'r') { opened_in++; return IN_FILE; }
-  opened_out++; return OUT_FILE;
+  fopen_calls++; fopen_name = name;
+  int wr = mode[0] == 'w';
+  if (wr) { fopen_w++; CHECK(mode[1] == 'b' && mode[2] == '+' && mode[3] == 0, "output files are opened \"wb+\""); for (u32 i = 0; i < 259; i++) { fopen_wname[i] = name[i]; if (!name[i]) break; } }
+  else { fopen_r++; CHECK(mode[0] == 'r' && mode[1] == 'b' && mode[2] == 0, "input files are opened \"rb\""); }
+  if (!fopen_outcome(name, wr)) return 0;
+  return wr ? F_OUT : F_IN;
 }
 u32 X_sprintf(u8 *dst, u8 *fmt, ...)
 {
-  /* the only format used: "%s.wenc" - byte exact, no bound (as sprintf) */
+  /* the only format the unit ever used: "%s.wenc" - byte exact, unbounded (as sprintf) */
   va_list ap; va_start(ap, fmt);
   const u8 *s = va_arg(ap, const u8 *);
   va_end(ap);
   CHECK(fmt[0] == '%' && fmt[1] == 's', "sprintf model: format \"%s.wenc\"");
   u32 n = 0;
-  for (; n < 200 && s[n]; n++) dst[n] = s[n];
+  for (; n < 300 && s[n]; n++) dst[n] = s[n];
   for (u32 j = 2; j < 16 && fmt[j]; j++) dst[n++] = fmt[j];
   dst[n] = 0;
   return n;
@@ -64,81 +89,480 @@ u32 X_snprintf(u8 *dst, u64 cap, u8 *fmt, ...)
   const u8 *s = va_arg(ap, const u8 *);
   va_end(ap);
   u32 n = 0, w = 0;
-  for (; n < 200 && s[n]; n++) { if (w + 1 < cap) dst[w++] = s[n]; }
+  for (; n < 300 && s[n]; n++) { if (w + 1 < cap) dst[w++] = s[n]; }
   u32 tot = n;
   for (u32 j = 2; j < 16 && fmt[j]; j++) { if (w + 1 < cap) dst[w++] = fmt[j]; tot++; }
   if (cap) dst[w] = 0;
   return tot;
 }
-u64 X_strtol(u8 *s, u8 *end, u32 base)
-{
-  u32 i = 0; int neg = 0; u64 v = 0;
-  if (s[i] == '-') { neg = 1; i++; }
-  for (; i < 12 && s[i] >= '0' && s[i] <= '9'; i++) v = v * 10 + (u64)(s[i] - '0');
-  return neg ? (u64)(0 - v) : v;
-}
-u64 X__ZNSt10filesystem9file_sizeERKNS_7__cxx114pathE(u8 *p) { return IN.fsize; }
-void X__ZNSt10filesystem7__cxx114path14_M_split_cmptsEv(u8 *p) {}
+static int64_t strtol_value(u8 *s);
+u64 X_strtol(u8 *s, u8 *end, u32 base) { (void)end; (void)base; return (u64)strtol_value(s); }
+u32 X_atoi(u8 *s) { return (u32)strtol_value(s); }
+static u64 file_size_value;
+u64 X__ZNSt10filesystem9file_sizeERKNS_7__cxx114pathE(u8 *p) { (void)p; return file_size_value; }
+void X__ZNSt10filesystem7__cxx114path14_M_split_cmptsEv(u8 *p) { (void)p; }
 void X__ZNSt10filesystem7__cxx114path5_ListC1Ev(u8 *p) { *(u8 **)p = 0; }
-void X__ZNKSt10filesystem7__cxx114path5_List13_Impl_deleterclEPNS2_5_ImplE(u8 *d, u8 *i) {}
+void X__ZNKSt10filesystem7__cxx114path5_List13_Impl_deleterclEPNS2_5_ImplE(u8 *d, u8 *i) { (void)d; (void)i; }
 void X__ZSt28__throw_bad_array_new_lengthv(void) { CHECK(0, "throws bad_array_new_length"); ASSUME(0); }
 /* strlog(std::string, std::string, char): diagnostics are counted, not formatted */
-void stub_strlog(u8 *s1, u8 *s2, u8 fill) { diag++; }
+void stub_strlog(u8 *s1, u8 *s2, u8 fill) { (void)s1; (void)s2; (void)fill; diag++; }
 void X_exit(u32 status)
 {
-  exit_called = 1;
   CHECK(status != 0, "exit() is only used for failures");
-  ASSUME(0);                                   /* process ends here: a diagnostic was printed (fprintf to stderr precedes every exit in Settings) */
+  ASSUME(0);                                   /* the process ends here with a non-zero status; Settings prints to stderr before every exit */
 }
-/* ---- kernel stub: preconditions of runcrypt and the three operations */
-static u8 *rc_fin, *rc_out, *rc_key; static u32 rc_made, rc_ops;
-void stub_rc_ctor(u8 *self, u8 *fin, u8 *out, u8 *key, u32 settings, u8 threads)
-{
-  rc_made++; rc_fin = fin; rc_out = out; rc_key = key;
-  *(u8 **)(self + vf_rc_resultprint_off()) = 0;          /* ~runcrypt deletes it */
-  u8 ct = (u8)settings, ht = (u8)(settings >> 8);
-  CHECK((ct <= 4 || ct == 0xff) && (ht <= 2 || ht == 0xff), "kernel receives in-range (or unset) mode numbers");
-}
-u8 stub_rc_encrypt(u8 *self, u64 fsize, u8 *seed)
-{
-  rc_ops++;
-  if (rc_fin != 0) CHECK(rc_key != 0 && rc_out != 0 && seed != 0, "encrypt reaches the kernel with key, output file and seed");
-  return rc_fin != 0 && (IN.opres & 1);
-}
-u8 stub_rc_decrypt(u8 *self, u64 fsize)
-{
-  rc_ops++;
-  if (rc_fin != 0) CHECK(rc_key != 0 && rc_out != 0, "decrypt reaches the kernel only with a key and an output file (else a diagnostic and a non-zero exit)");
-  return rc_fin != 0 && (IN.opres & 1);
-}
-u8 stub_rc_verify(u8 *self, u64 fsize)
-{
-  rc_ops++;
-  if (rc_fin != 0) CHECK(rc_key != 0, "verify reaches the kernel only with a key (else a diagnostic and a non-zero exit)");
-  return rc_fin != 0 && (IN.opres & 1);
-}
+#define DIAG_BEGIN() ((void)0)
+#define DIAG_END() ((void)0)
+#else
+/* =================================================== native replay against the real build */
+#include <unistd.h>
+#include <fcntl.h>
+#include <sys/stat.h>
+extern char *optarg;
+#define SET_OPTARG(p) (optarg = (char *)(p))
+static int saved_fd = -1;
+static void DIAG_BEGIN(void) { fflush(stdout); saved_fd = dup(1); int fd = open("diag.txt", O_WRONLY | O_CREAT | O_TRUNC, 0600); dup2(fd, 1); close(fd); }
+static void DIAG_END(void) { fflush(stdout); struct stat st; fstat(1, &st); dup2(saved_fd, 1); close(saved_fd); if (st.st_size > 0) diag++; }
+static void put_file(const char *name, const void *p, u32 n) { FILE *f = fopen(name, "wb"); if (f) { fwrite(p, 1, n, f); fclose(f); } }
+void global_ctors(void) {}
+#endif
+
+/* =============================================================================================================== H_STEP */
+#if defined(H_STEP)
+#ifndef ARGLEN
+#define ARGLEN 24
+#endif
+struct in_t { u8 c; u8 arg[ARGLEN + 1]; u8 mode, ctype, htype, noecho, has_fp, has_out, has_key, fopen_ok; u64 size, fsize; int32_t num; } IN;
+static u8 ARG[ARGLEN + 1];
+#if MODEL
+static int fopen_outcome(u8 *name, int wr) { (void)wr; CHECK(name == ARG, "fopen is given the option's argument"); return IN.fopen_ok != 0; }
+static int64_t strtol_value(u8 *s) { CHECK(s == ARG, "the number is parsed from the option's argument"); return (int64_t)IN.num; }
+#endif
 void harness(void)
 {
   LOAD_INPUTS();
-  ASSUME(IN.nopts >= 1 && IN.nopts <= NOPT);            /* argc == 1 is the interactive mode (excluded by C17) */
-  for (int i = 0; i < NOPT; i++) ASSUME(IN.opts[i] < NMENU);
-  for (int i = 0; i < 130; i++) LONGPATH[i] = 'p';
-  LONGPATH[130] = 0;
-  u8 inbytes[8] = {0};
-  IN_FILE = envf_open_in(inbytes, 8); OUT_FILE = envf_open_out(64);
-  global_ctors();                                       /* static initialisers of information.cpp (mode name tables) */
-  u8 *argv[2] = {(u8 *)"Wencry", 0};
+  int c = (int)(signed char)IN.c, mode = (int)(signed char)IN.mode, ct = (int)(signed char)IN.ctype, ht = (int)(signed char)IN.htype;
+  ASSUME(inv_ok(mode, ct, ht));
+#ifdef OPTC
+  ASSUME(c == OPTC);              /* option code concrete per query ... */
+#else
+  ASSUME(c != 'e' && c != 'd' && c != 'v' && c != 'V' && c != 'h' && c != 'i' && c != 'o' && c != 'k' && c != 'n' && c != 1 && c != 2);   /* ... or any of the other 245 char values */
+#endif
+#if !MODEL
+  for (u32 i = 0; i < ARGLEN; i++) if (IN.arg[i] < 0x21 || IN.arg[i] > 0x7e) IN.arg[i] = 'a';       /* bytes the (sliced) trace does not mention */
+#endif
+  for (u32 i = 0; i < ARGLEN; i++) { ASSUME(IN.arg[i] >= 0x21 && IN.arg[i] <= 0x7e); ARG[i] = IN.arg[i]; }
+  ARG[ARGLEN] = 0;
+  global_ctors();
+  u8 inbytes[8] = {1, 2, 3, 4, 5, 6, 7, 8}, prekey[16] = {0};
+  u8 *PRE_IN = envf_open_in(inbytes, 8), *PRE_OUT = envf_open_out(8);
+  u8 *pre_key = env_alloc(16); memcpy(pre_key, prekey, 16);
+  u8 *pak = vf_pak_new();
+  u8 *fp0 = IN.has_fp ? PRE_IN : 0, *out0 = IN.has_out ? PRE_OUT : 0, *key0 = IN.has_key ? pre_key : 0;
+  vf_pak_set(pak, fp0, out0, key0, IN.size, (u32)mode, (u32)ct, (u32)ht, IN.noecho != 0);
+  u8 *argp = ARG;
+#if MODEL
+  F_IN = envf_open_in(inbytes, 8); F_OUT = envf_open_out(64);
+  file_size_value = IN.fsize;
+  u64 exp_size = IN.fsize;
+  { extern u64 env_strlen_hint; extern u8 *env_strlen_hint_ptr; env_strlen_hint = ARGLEN; env_strlen_hint_ptr = ARG; }      /* the argument's length is the concrete parameter ARGLEN */
+#else
+  /* native: the argument is a real path / number text in the (fresh) working directory */
+  static char numtxt[16];
+  u64 exp_size = 8;
+  for (u32 i = 0; i < ARGLEN; i++) if (ARG[i] == '/') ARG[i] = '_';
+  if (c == 1 || c == 2) { snprintf(numtxt, sizeof numtxt, "%d", (int)IN.num); argp = (u8 *)numtxt; }
+  if (c == 'i' && IN.fopen_ok) put_file((char *)ARG, inbytes, 8);
+  if (c == 'o' && !IN.fopen_ok) mkdir((char *)ARG, 0700);               /* fopen(dir, "wb+") fails */
+#endif
+  SET_OPTARG(c == 'e' || c == 'd' || c == 'v' || c == 'V' || c == 'h' || c == 'n' ? 0 : argp);    /* getopt_long leaves optarg NULL for options without argument */
   u32 diag0 = diag;
-  u32 ret = vf_main(1 + IN.nopts, (u8 *)argv);
-  int mode = -1, modes = 0;
-  for (u32 i = 0; i < IN.nopts && i < NOPT; i++) { int c = MENU[IN.opts[i]].c; if (c == 'e' || c == 'd' || c == 'v' || c == 'V' || c == 'h') { if (!modes) mode = c; modes++; } }
-  if (ret == 0) {
-    CHECK((rc_ops == 1 && (IN.opres & 1)) || (rc_ops == 0 && (mode == 'V' || mode == 'h')), "exit status 0 exactly when the requested operation ran and succeeded (or version/help)");
-  } else {
-    CHECK(!(rc_ops == 1 && (IN.opres & 1) && rc_fin != 0), "a successful operation exits 0");
-    CHECK(rc_ops == 1 || diag > diag0, "every failing command line prints a diagnostic");
+  DIAG_BEGIN();
+  u32 r = vf_parseopts((u32)c, pak);
+  DIAG_END();
+  /* ---- the rule */
+  int exp_ok, is_mode = c == 'e' || c == 'd' || c == 'v' || c == 'V' || c == 'h';
+  if (is_mode) exp_ok = mode == 'u';
+  else if (c == 'i' || c == 'o') exp_ok = IN.fopen_ok != 0;
+  else if (c == 'k') exp_ok = key_text_valid(ARG, ARGLEN);
+  else if (c == 'n') exp_ok = 1;
+  else if (c == 1) exp_ok = ct == -1 && IN.num >= 0 && IN.num <= 4;
+  else if (c == 2) exp_ok = ht == -1 && IN.num >= 0 && IN.num <= 2;
+  else exp_ok = 0;
+  CHECK((r != 0) == (exp_ok != 0), "an option is accepted exactly when: one mode only / the file opens / the key text is 22 symbols + \"==\" / the mode number is in range and given once / the option is known");
+  if (!r) CHECK(diag > diag0, "a rejected option prints a diagnostic");
+  if (r) {
+    int m1 = (int)(signed char)vf_pak_mode(pak), c1 = (int)(signed char)vf_pak_ctype(pak), h1 = (int)(signed char)vf_pak_htype(pak);
+    CHECK(inv_ok(m1, c1, h1), "Inv preserved: mode letter and mode numbers stay in their ranges");
+    CHECK(m1 == (is_mode ? c : mode), "mode letter: set by a mode option, otherwise unchanged");
+    CHECK(c1 == (c == 1 ? (int)IN.num : ct), "cipher mode: the given number, otherwise unchanged");
+    CHECK(h1 == (c == 2 ? (int)IN.num : ht), "hash mode: the given number, otherwise unchanged");
+    CHECK(vf_pak_noecho(pak) == (u32)(c == 'n' ? 1 : IN.noecho != 0), "no_echo: set by -n, otherwise unchanged");
+    u8 *fp1 = vf_pak_fp(pak), *out1 = vf_pak_out(pak), *key1 = vf_pak_key(pak);
+    if (c == 'i') {
+#if MODEL
+      CHECK(fp1 == F_IN && fopen_r == 1 && fopen_calls == 1, "-i: the input handle is the file just opened for reading");
+#else
+      CHECK(fp1 != 0 && fp1 != fp0, "-i: the input handle is the file just opened for reading");
+#endif
+      CHECK(vf_pak_size(pak) == exp_size, "-i: size = file size");
+    } else { CHECK(fp1 == fp0, "input handle unchanged"); CHECK(vf_pak_size(pak) == IN.size, "size unchanged"); }
+    if (c == 'o') {
+#if MODEL
+      CHECK(out1 == F_OUT && fopen_w == 1 && fopen_calls == 1, "-o: the output handle is the file just opened \"wb+\"");
+#else
+      CHECK(out1 != 0 && out1 != out0, "-o: the output handle is the file just opened \"wb+\"");
+#endif
+    } else CHECK(out1 == out0, "output handle unchanged");
+    if (c == 'k') {
+      u8 want[16]; key_text_decode(ARG, want);
+      CHECK(key1 != 0 && key1 != key0, "-k: a fresh key buffer");
+      if (key1) for (int i = 0; i < 16; i++) CHECK(key1[i] == want[i], "-k: the 16 key bytes are the base64 decoding of the text");
+    } else CHECK(key1 == key0, "key unchanged");
+#if MODEL
+    if (c != 'i' && c != 'o') CHECK(fopen_calls == 0, "no file is opened by other options");
+#endif
   }
-  CHECK(rc_ops <= 1, "at most one operation per invocation");
   WITNESS_POINT();
 }
+
+/* =============================================================================================================== H_TAIL */
+#elif defined(H_TAIL)
+#ifndef NOPT
+#define NOPT 2
+#endif
+struct hav { u8 ok, mode, ctype, htype, noecho, has_fp, has_out, has_key; u64 size; };
+struct in_t { u8 nopts; u8 c[NOPT + 1]; struct hav h[NOPT + 1]; u8 fopen_ok; } IN;
+static u8 *PRE_IN, *PRE_OUT, *PRE_KEY;
+static u32 g_pos, parse_calls, any_reject;
+#if MODEL
+static int fopen_outcome(u8 *name, int wr) { (void)name; CHECK(wr, "get_v_opt itself opens only the default output file"); return IN.fopen_ok != 0; }
+static int64_t strtol_value(u8 *s) { (void)s; CHECK(0, "no number parsing outside parseOpts"); return 0; }
+u32 X_getopt_long(u32 argc, u8 *argv, u8 *so, u8 *lo, u8 *idx)
+{
+  (void)argc; (void)argv; (void)so; (void)lo; (void)idx;
+  if (g_pos >= IN.nopts || g_pos >= NOPT) return 0xffffffffu;
+  u8 k = IN.c[g_pos++];
+  X_G_optind++;
+  return (u32)k;
+}
+/* stands for parseOpts: what H_STEP proves about it is all that is used here */
+u8 stub_parseopts(u8 c, u8 *res)
+{
+  (void)c;
+  u32 k = parse_calls++;
+  if (k == 0) {
+    CHECK(inv_ok((int)(signed char)vf_pak_mode(res), (int)(signed char)vf_pak_ctype(res), (int)(signed char)vf_pak_htype(res)) && (int)(signed char)vf_pak_mode(res) == 'u'
+          && vf_pak_fp(res) == 0 && vf_pak_out(res) == 0 && vf_pak_key(res) == 0 && vf_pak_noecho(res) == 0, "the initial state satisfies Inv (mode unset, numbers unset, no files, no key)");
+  }
+  if (k >= NOPT) return 0;
+  struct hav *h = &IN.h[k];
+  vf_pak_set(res, h->has_fp ? PRE_IN : 0, h->has_out ? PRE_OUT : 0, h->has_key ? PRE_KEY : 0, h->size, (u32)(int)(signed char)h->mode, (u32)(int)(signed char)h->ctype, (u32)(int)(signed char)h->htype, h->noecho != 0);
+  if (!h->ok) { diag++; any_reject = 1; return 0; }
+  return 1;
+}
+#endif
+void harness(void)
+{
+  LOAD_INPUTS();
+  ASSUME(IN.nopts <= NOPT);
+  for (u32 k = 0; k < NOPT; k++) { ASSUME(inv_ok((int)(signed char)IN.h[k].mode, (int)(signed char)IN.h[k].ctype, (int)(signed char)IN.h[k].htype)); ASSUME(IN.c[k] != 0xff); }
+  global_ctors();
+  u8 inbytes[8] = {1, 2, 3, 4, 5, 6, 7, 8};
+  /* final state = the last havoc (initial state if there was no option) */
+  int any_rej = 0; for (u32 k = 0; k < IN.nopts && k < NOPT; k++) if (!IN.h[k].ok) { any_rej = 1; break; }
+  struct hav init = {1, 'u', 0xff, 0xff, 0, 0, 0, 0, 0};
+  struct hav S = IN.nopts ? IN.h[IN.nopts - 1 < NOPT ? IN.nopts - 1 : 0] : init;
+  int mode = (int)(signed char)S.mode, ct = (int)(signed char)S.ctype, ht = (int)(signed char)S.htype;
+  u32 diag0 = diag;
+#if MODEL
+  PRE_IN = envf_open_in(inbytes, 8); PRE_OUT = envf_open_out(8); PRE_KEY = env_alloc(16); memset(PRE_KEY, 7, 16);
+  F_IN = envf_open_in(inbytes, 8); F_OUT = envf_open_out(64);
+  u8 *argv[2] = {(u8 *)"Wencry", 0};
+  u8 *ret = vf_get_v_opt(2, (u8 *)argv);
+#else
+  /* native: a real option vector that leads the real parser to the state S (or contains a rejected option) */
+  static char ctxt[8], htxt[8];
+  char *argv[24]; int argc = 0;
+  argv[argc++] = "Wencry";
+  put_file("in.bin", inbytes, 8);
+  if (mode != 'u') { static char m[3] = "-e"; m[1] = (char)mode; argv[argc++] = m; }
+  if (ct != -1) { snprintf(ctxt, sizeof ctxt, "%d", ct); argv[argc++] = "--cmode"; argv[argc++] = ctxt; }
+  if (ht != -1) { snprintf(htxt, sizeof htxt, "%d", ht); argv[argc++] = "--hmode"; argv[argc++] = htxt; }
+  if (S.noecho) argv[argc++] = "-n";
+  if (S.has_fp) { argv[argc++] = "-i"; argv[argc++] = "in.bin"; }
+  if (S.has_out) { argv[argc++] = "-o"; argv[argc++] = "out.bin"; }
+  if (S.has_key) { argv[argc++] = "-k"; argv[argc++] = (char *)KEY_OK; }
+  if (any_rej) { argv[argc++] = "-k"; argv[argc++] = "bad"; }
+  if (argc == 1) argv[argc++] = "stray";
+  argv[argc] = 0;
+  if (!IN.fopen_ok) mkdir("in.bin.wenc", 0700);
+  DIAG_BEGIN();
+  u8 *ret = vf_get_v_opt((u32)argc, (u8 *)argv);
+  DIAG_END();
+#endif
+  int needs_default_out = mode == 'e' && S.has_fp && !S.has_out;
+  int accept = !any_rej && (mode == 'V' || mode == 'h' || (mode == 'e' && S.has_fp && (S.has_out || IN.fopen_ok)) || (mode == 'd' && S.has_fp && S.has_key && S.has_out) || (mode == 'v' && S.has_fp && S.has_key));
+  CHECK((ret != 0) == (accept != 0), "the parser succeeds exactly when every option was accepted and the mode has what it needs (-e: input; -d: input, key, output; -v: input, key; a default output that opens)");
+  if (!ret) CHECK(diag > diag0, "a rejected command line prints a diagnostic");
+  if (ret) {
+    int m1 = (int)(signed char)vf_pak_mode(ret), c1 = (int)(signed char)vf_pak_ctype(ret), h1 = (int)(signed char)vf_pak_htype(ret);
+    CHECK(m1 == mode, "mode letter as parsed");
+    if (mode == 'e') {
+      CHECK(c1 == (ct == -1 ? 0 : ct) && h1 == (ht == -1 ? 0 : ht), "-e: unset mode numbers default to 0, given ones are kept");
+      CHECK(vf_pak_fp(ret) != 0 && vf_pak_out(ret) != 0 && vf_pak_key(ret) != 0, "Q(-e): input, output and key are present");
+#if MODEL
+      CHECK(vf_pak_fp(ret) == PRE_IN && vf_pak_out(ret) == (S.has_out ? PRE_OUT : F_OUT) && (fopen_calls == (u32)needs_default_out), "-e: the default output is opened only when -o was not given");
+      if (S.has_key) CHECK(vf_pak_key(ret) == PRE_KEY, "-e: a given key is kept");
+#endif
+    } else {
+      CHECK(c1 == ct && h1 == ht, "mode numbers as parsed");
+      if (mode == 'd') CHECK(vf_pak_fp(ret) != 0 && vf_pak_out(ret) != 0 && vf_pak_key(ret) != 0, "Q(-d): input, output and key are present");
+      if (mode == 'v') CHECK(vf_pak_fp(ret) != 0 && vf_pak_key(ret) != 0, "Q(-v): input and key are present");
+#if MODEL
+      CHECK(fopen_calls == 0, "no file is opened outside -e's default output");
+#endif
+    }
+    CHECK(vf_pak_noecho(ret) == (u32)(S.noecho != 0), "no_echo as parsed");
+  }
+  WITNESS_POINT();
+}
+
+/* =============================================================================================================== H_MAIN / H_WHOLE */
+#elif defined(H_MAIN) || defined(H_WHOLE)
+/* ---- kernel stub (model only): records what runcrypt is constructed with and which operation runs; the result is symbolic */
+static u8 *rc_fin, *rc_out, *rc_key; static u32 rc_made, rc_ops, rc_kind, rc_ct, rc_ht; static u64 rc_size; static u8 *rc_seed;
+#ifdef H_MAIN
+struct in_t { u8 null, mode, ctype, htype, noecho, has_out, has_key, opres; u64 size; } IN;
+#else
+#ifndef WPATHLEN
+#define WPATHLEN 6
+#endif
+struct in_t { u8 opres; u64 fsize; u8 path[WPATHLEN + 1]; } IN;
+#endif
+#if MODEL
+void stub_rc_ctor(u8 *self, u8 *fin, u8 *out, u8 *key, u32 settings, u8 threads)
+{
+  (void)threads;
+  rc_made++; rc_fin = fin; rc_out = out; rc_key = key;
+  memset(self, 0, vf_rc_sizeof());                       /* ~runcrypt deletes resultprint and destroys the (unstarted) thread array */
+  rc_ct = (u8)settings; rc_ht = (u8)(settings >> 8);
+  CHECK((rc_ct <= 4 || rc_ct == 0xff) && (rc_ht <= 2 || rc_ht == 0xff), "the kernel receives in-range (or unset) mode numbers");
+}
+u8 stub_rc_encrypt(u8 *self, u64 fsize, u8 *seed)
+{
+  (void)self; rc_ops++; rc_kind = 'e'; rc_size = fsize; rc_seed = seed;
+  CHECK(rc_fin != 0 && rc_key != 0 && rc_out != 0 && seed != 0, "encrypt reaches the kernel with input, key, output file and seed");
+  CHECK(rc_ct <= 4 && rc_ht <= 2, "encrypt reaches the kernel with concrete mode numbers");
+  return IN.opres & 1;
+}
+u8 stub_rc_decrypt(u8 *self, u64 fsize)
+{
+  (void)self; rc_ops++; rc_kind = 'd'; rc_size = fsize;
+  CHECK(rc_fin != 0 && rc_key != 0 && rc_out != 0, "decrypt reaches the kernel only with input, key and output file (else a diagnostic and a non-zero exit)");
+  return IN.opres & 1;
+}
+u8 stub_rc_verify(u8 *self, u64 fsize)
+{
+  (void)self; rc_ops++; rc_kind = 'v'; rc_size = fsize;
+  CHECK(rc_fin != 0 && rc_key != 0, "verify reaches the kernel only with input and key (else a diagnostic and a non-zero exit)");
+  return IN.opres & 1;
+}
+#endif
+#if !MODEL
+/* native: a valid encrypted file for the operations that are to succeed, junk for those that are to fail */
+static void native_files(void)
+{
+  u8 inbytes[40]; for (int i = 0; i < 40; i++) inbytes[i] = (u8)(i * 3 + 1);
+  put_file("in.bin", inbytes, 40);
+  put_file("junk.bin", inbytes, 40);
+  char *a[] = {"Wencry", "-e", "-i", "in.bin", "-o", "valid.wenc", "-k", (char *)KEY_OK, "-n", 0};
+  DIAG_BEGIN(); (void)vf_main(9, (u8 *)a); DIAG_END();
+}
+#endif
+
+#ifdef H_MAIN
+static u8 *PAK, *PRE_IN, *PRE_OUT, *PRE_KEY;
+#if MODEL
+static int fopen_outcome(u8 *name, int wr) { (void)name; (void)wr; CHECK(0, "main opens no file itself"); return 0; }
+static int64_t strtol_value(u8 *s) { (void)s; return 0; }
+u8 *stub_get_v_opt(u32 argc, u8 *argv)
+{
+  (void)argc; (void)argv;
+  if (IN.null) { diag++; return 0; }               /* H_TAIL: NULL comes with a diagnostic */
+  return PAK;
+}
+#endif
+void harness(void)
+{
+  LOAD_INPUTS();
+  int mode = (int)(signed char)IN.mode, ct = (int)(signed char)IN.ctype, ht = (int)(signed char)IN.htype;
+  /* Q */
+  ASSUME(mode == 'e' || mode == 'd' || mode == 'v' || mode == 'V' || mode == 'h');
+  ASSUME(ct >= -1 && ct <= 4 && ht >= -1 && ht <= 2);
+  if (mode == 'e') ASSUME(ct >= 0 && ht >= 0 && IN.has_out && IN.has_key);
+  if (mode == 'd') ASSUME(IN.has_out && IN.has_key);
+  if (mode == 'v') ASSUME(IN.has_key);
+  int has_fp = mode == 'e' || mode == 'd' || mode == 'v' ? 1 : 0;
+  global_ctors();
+  u32 diag0 = diag;
+#if MODEL
+  u8 inbytes[8] = {1, 2, 3, 4, 5, 6, 7, 8};
+  PRE_IN = envf_open_in(inbytes, 8); PRE_OUT = envf_open_out(8); PRE_KEY = env_alloc(16); memset(PRE_KEY, 7, 16);
+  PAK = vf_pak_new();
+  vf_pak_set(PAK, has_fp ? PRE_IN : 0, IN.has_out ? PRE_OUT : 0, IN.has_key ? PRE_KEY : 0, IN.size, (u32)mode, (u32)ct, (u32)ht, IN.noecho != 0);
+  u8 *argv[3] = {(u8 *)"Wencry", (u8 *)"x", 0};
+  u32 ret = vf_main(2, (u8 *)argv);
+#else
+  native_files();
+  static char ctxt[8], htxt[8], m[3] = "-e";
+  char *argv[24]; int argc = 0;
+  argv[argc++] = "Wencry";
+  if (IN.null) { argv[argc++] = "-k"; argv[argc++] = "bad"; }
+  m[1] = (char)mode; argv[argc++] = m;
+  if (mode == 'e') { snprintf(ctxt, sizeof ctxt, "%d", ct); argv[argc++] = "--cmode"; argv[argc++] = ctxt; snprintf(htxt, sizeof htxt, "%d", ht); argv[argc++] = "--hmode"; argv[argc++] = htxt; }
+  if (IN.noecho) argv[argc++] = "-n";
+  if (has_fp) { argv[argc++] = "-i"; argv[argc++] = mode == 'e' ? "in.bin" : (IN.opres & 1) ? "valid.wenc" : "junk.bin"; }
+  if (IN.has_out) { argv[argc++] = "-o"; argv[argc++] = "out.bin"; }
+  if (IN.has_key) { argv[argc++] = "-k"; argv[argc++] = (char *)KEY_OK; }
+  argv[argc] = 0;
+  if (mode == 'e') ASSUME(IN.opres & 1);            /* a failing encryption cannot be arranged natively */
+  DIAG_BEGIN();
+  u32 ret = vf_main((u32)argc, (u8 *)argv);
+  DIAG_END();
+#endif
+  if (IN.null) {
+    CHECK(ret != 0, "a rejected command line exits non-zero");
+    CHECK(diag > diag0, "a rejected command line prints a diagnostic");
+#if MODEL
+    CHECK(rc_made == 0 && rc_ops == 0, "a rejected command line starts no operation");
+#endif
+  } else if (mode == 'V' || mode == 'h') {
+    CHECK(ret == 0, "version / help exit 0");
+#if MODEL
+    CHECK(rc_made == 0 && rc_ops == 0, "version / help start no operation");
+#endif
+  } else {
+    CHECK((ret == 0) == ((IN.opres & 1) != 0), "exit status 0 exactly when the requested operation reported success");
+#if MODEL
+    CHECK(rc_made == 1 && rc_ops == 1 && rc_kind == (u32)mode, "exactly the requested operation runs, once");
+    CHECK(rc_fin == PRE_IN && rc_out == (IN.has_out ? PRE_OUT : 0) && rc_key == PRE_KEY, "the kernel gets the parsed input, output and key");
+    CHECK(rc_ct == (u8)ct && rc_ht == (u8)ht && rc_size == IN.size, "the kernel gets the parsed mode numbers and size");
+#endif
+  }
+  WITNESS_POINT();
+}
+
+#else  /* ---------------------------------------------------------------------------------------------------------- H_WHOLE */
+/* SEQ: comma separated menu indices (concrete per query); the operation result, the file size and the bytes of the symbolic input path are symbolic */
+static char LONGPATH[131], SYMPATH[WPATHLEN + 1];
+static const char KEY_BAD1[] = "QUJDREVGR0hJSktMTU5PUFE=", KEY_BAD2[] = "short", KEY_BAD3[] = "QUJDREVGR0hJSktMTU5PU!==";
+struct mopt { int c; const char *arg; };
+#define NMENU 24
+static struct mopt MENU[NMENU] = {
+  {'e', 0}, {'d', 0}, {'v', 0},
+  {'i', "in.bin"}, {'i', "nofile"}, {'i', LONGPATH},
+  {'o', "out.bin"}, {'o', "/nodir/out"},
+  {'k', KEY_OK}, {'k', KEY_BAD1}, {'k', KEY_BAD2}, {'k', KEY_BAD3},
+  {1, "2"}, {1, "7"}, {2, "1"}, {2, "9"},
+  {'n', 0}, {'V', 0}, {'h', 0}, {'?', 0}, {1, "-3"},
+  {'i', SYMPATH}, {1, "256"}, {2, "255"},
+};
+static const u8 SEQV[] = {SEQ};
+#define NSEQ ((u32)sizeof SEQV)
+static u32 g_pos;
+#if MODEL
+static int fopen_outcome(u8 *name, int wr)
+{
+  if (name == (u8 *)MENU[4].arg || name == (u8 *)MENU[7].arg) return 0;       /* does not exist / directory missing */
+  (void)wr; return 1;
+}
+static int64_t strtol_value(u8 *s)
+{
+  u32 i = 0; int neg = 0; int64_t v = 0;
+  if (s[i] == '-') { neg = 1; i++; }
+  for (; i < 12 && s[i] >= '0' && s[i] <= '9'; i++) v = v * 10 + (s[i] - '0');
+  return neg ? -v : v;
+}
+u32 X_getopt_long(u32 argc, u8 *argv, u8 *so, u8 *lo, u8 *idx)
+{
+  (void)argc; (void)argv; (void)so; (void)lo; (void)idx;
+  if (g_pos >= NSEQ) return 0xffffffffu;
+  u8 k = SEQV[g_pos++];
+  X_G_optarg = (u8 *)MENU[k].arg;
+  X_G_optind++;
+  return (u32)MENU[k].c;
+}
+#endif
+void harness(void)
+{
+  LOAD_INPUTS();
+  for (int i = 0; i < 130; i++) LONGPATH[i] = 'p';
+  LONGPATH[130] = 0;
+#if !MODEL
+  for (u32 i = 0; i < WPATHLEN; i++) if (IN.path[i] < 0x21 || IN.path[i] > 0x7e) IN.path[i] = 'a';
+#endif
+  for (u32 i = 0; i < WPATHLEN; i++) { ASSUME(IN.path[i] >= 0x21 && IN.path[i] <= 0x7e); SYMPATH[i] = (char)(IN.path[i] == '/' && !MODEL ? '_' : IN.path[i]); }
+  SYMPATH[WPATHLEN] = 0;
+  global_ctors();
+  /* what the sequence asks for */
+  int mode = 0, modes = 0, has_in = 0, in_ok = 0, has_out = 0, out_ok = 0, has_key = 0, key_ok = 0, bad = 0, nc = 0, nh = 0; const char *in_name = "";
+  for (u32 i = 0; i < NSEQ && !bad; i++) {
+    u32 k = SEQV[i]; int c = MENU[k].c;
+    if (c == 'e' || c == 'd' || c == 'v' || c == 'V' || c == 'h') { if (modes) bad = 1; mode = c; modes++; }
+    else if (c == 'i') { has_in = 1; in_ok = k != 4; in_name = MENU[k].arg; if (!in_ok) bad = 1; }
+    else if (c == 'o') { has_out = 1; out_ok = k != 7; if (!out_ok) bad = 1; }
+    else if (c == 'k') { has_key = 1; key_ok = k == 8; if (!key_ok) bad = 1; }
+    else if (c == 1) { if (nc || k != 12) bad = 1; nc++; }
+    else if (c == 2) { if (nh || k != 14) bad = 1; nh++; }
+    else if (c == 'n') ;
+    else bad = 1;
+  }
+  int runs = !bad && ((mode == 'e' && has_in) || (mode == 'd' && has_in && has_key && has_out) || (mode == 'v' && has_in && has_key));
+  int info = !bad && (mode == 'V' || mode == 'h');
+  u32 diag0 = diag;
+#if MODEL
+  u8 inbytes[8] = {0};
+  F_IN = envf_open_in(inbytes, 8); F_OUT = envf_open_out(64);
+  file_size_value = IN.fsize;
+  { extern u64 env_strlen_hint; extern u8 *env_strlen_hint_ptr; env_strlen_hint = WPATHLEN; env_strlen_hint_ptr = (u8 *)SYMPATH; }
+  u8 *argv[2] = {(u8 *)"Wencry", 0};
+  u32 ret = vf_main(1 + NSEQ, (u8 *)argv);
+#else
+  native_files();
+  { u8 b[8] = {0}; put_file(LONGPATH, b, 8); put_file(SYMPATH, b, 8); }
+  char *argv[2 * NSEQ + 3]; int argc = 0;
+  argv[argc++] = "Wencry";
+  for (u32 i = 0; i < NSEQ; i++) {
+    u32 k = SEQV[i]; int c = MENU[k].c;
+    static char sh[32][3];
+    if (c == 1) argv[argc++] = "--cmode"; else if (c == 2) argv[argc++] = "--hmode"; else if (c == '?') argv[argc++] = "-x";
+    else { sh[i][0] = '-'; sh[i][1] = (char)c; sh[i][2] = 0; argv[argc++] = sh[i]; }
+    if (MENU[k].arg) argv[argc++] = (char *)((mode == 'd' || mode == 'v') && k == 3 ? ((IN.opres & 1) ? "valid.wenc" : "junk.bin") : MENU[k].arg);
+  }
+  argv[argc] = 0;
+  if (mode == 'e' && runs) ASSUME(IN.opres & 1);
+  DIAG_BEGIN();
+  u32 ret = vf_main((u32)argc, (u8 *)argv);
+  DIAG_END();
+#endif
+  if (info) CHECK(ret == 0, "version / help exit 0");
+  else if (runs) CHECK((ret == 0) == ((IN.opres & 1) != 0), "exit status 0 exactly when the requested operation ran and succeeded");
+  else { CHECK(ret != 0, "a command line that cannot be carried out exits non-zero"); CHECK(diag > diag0, "every rejected command line prints a diagnostic"); }
+#if MODEL
+  CHECK(rc_ops == (u32)(runs ? 1 : 0), "the operation runs exactly when the command line is complete and valid");
+  if (runs) CHECK(rc_kind == (u32)mode, "the requested operation runs");
+  if (runs && mode == 'e' && !has_out) {
+    CHECK(fopen_w == 1, "-e without -o opens one output file");
+    const char *p = in_name;
+    u32 n = 0; for (; p[n]; n++) CHECK(fopen_wname[n] == (u8)p[n], "default output name starts with the input path");
+    CHECK(fopen_wname[n] == '.' && fopen_wname[n + 1] == 'w' && fopen_wname[n + 2] == 'e' && fopen_wname[n + 3] == 'n' && fopen_wname[n + 4] == 'c' && fopen_wname[n + 5] == 0, "default output name = input path + \".wenc\"");
+  }
+#endif
+  WITNESS_POINT();
+}
+#endif
+#else
+#error "select a harness"
+#endif
 HARNESS_MAIN
